@@ -139,7 +139,9 @@ MStep ==
                IF r[1] THEN UNCHANGED <<B, S, seg, skip>>
                ELSE Complain(r[2]) /\ skip' = TRUE /\ UNCHANGED <<B, S, seg>>
      ELSE IF Ev.e = "End"
-          THEN IF Ev.how = "checked" /\ (Outstanding # {} \/ S # {})
+          \* at the end of a history every block the allocator handed out has been given back -- also a block of zero elements
+          \* (an allocator may return a real block for n = 0, and std::allocator's does)
+          THEN IF Ev.how = "checked" /\ ({b \in DOMAIN B : ~B[b].freed} # {} \/ S # {})
                THEN Complain("NoLeakAtEnd") /\ UNCHANGED <<B, S, seg, skip>>
                ELSE UNCHANGED <<B, S, seg, skip>>
      ELSE LET r == Rule IN
